@@ -1,0 +1,48 @@
+//go:build verif
+
+package web
+
+import (
+	"net/http"
+
+	"github.com/gorilla/mux"
+)
+
+// Hooks for the verification harness in /verif (compiled only with -tags verif).
+
+// VerifObserve installs a middleware on the shared Router that reports, for every request the router
+// matched to a route, the name of that route and the variables extracted from the path.
+func VerifObserve(f func(req *http.Request, route string, vars map[string]string)) {
+	Router.Use(func(next http.Handler) http.Handler {
+		return http.HandlerFunc(func(w http.ResponseWriter, req *http.Request) {
+			name := ""
+			if cr := mux.CurrentRoute(req); cr != nil {
+				name = cr.GetName()
+			}
+			f(req, name, mux.Vars(req))
+			next.ServeHTTP(w, req)
+		})
+	})
+}
+
+// VerifRouteTable walks the shared Router and lists every named route as (name, methods, path template).
+func VerifRouteTable() [][3]string {
+	res := [][3]string{}
+	_ = Router.Walk(func(route *mux.Route, router *mux.Router, ancestors []*mux.Route) error {
+		if route.GetName() == "" {
+			return nil
+		}
+		tpl, _ := route.GetPathTemplate()
+		ms, _ := route.GetMethods()
+		m := ""
+		for i, x := range ms {
+			if i > 0 {
+				m += ","
+			}
+			m += x
+		}
+		res = append(res, [3]string{route.GetName(), m, tpl})
+		return nil
+	})
+	return res
+}
